@@ -570,6 +570,7 @@ def scenario_job(athlib, scn, sched_seeds, opts):
     import random
     rd = 0
     used = set()
+    stalls = 0
     for k, sseed in enumerate(sched_seeds):
         rng = random.Random(sseed)
         spec = draw_schedule(rng, len(programs), traces, wlines, used)
@@ -590,7 +591,13 @@ def scenario_job(athlib, scn, sched_seeds, opts):
         if res['overlap']:
             sigs_nt.add(sig)
         if res['status'] == 'stalled':
+            # a thread blocked on a primitive the cooperative seam did not catch: neither a pass nor a
+            # violation.  Three of them in one scenario and the rest of its schedules are not started.
             cnt.inc('skipped_unschedulable')
+            stalls += 1
+            if stalls >= 3:
+                cnt.inc('skipped_unschedulable', len(sched_seeds) - k - 1)
+                break
             continue
         vc = violation_class(programs, accepted, res)
         if vc is not None:
